@@ -40,7 +40,7 @@ class C10(F.Check):
     def kernels(self):
         nrand = 4 if self.tier == "quick" else 16
         gens = [P.gen_unit(*g) for g in [(1, 3, 2, 1, 50), (2, 7, 5, 10, -1234), (3, 1, 1, 1, 0)]] + gen_units(self.rng, nrand)
-        pool = P.LIB + gens
+        pool = P.LIB_EXT + gens
         self.prelude = "\n".join(u.decl for u in pool if u.decl)
         lists = []
         pairs = list(itertools.combinations(range(len(pool)), 2))
@@ -51,7 +51,12 @@ class C10(F.Check):
         fixed = [(0, 1), (0, 2), (1, 2), (1, 3), (2, 4)]
         for p in fixed + [p for p in pairs if p not in fixed][:np_]:
             lists.append([pool[i] for i in p])
-        for t in [(0, 1, 2)] + triples[:nt]:
+        # every triple of library point units (incl. prefixed Celsius: same origin, different scale), then seeded random ones
+        nlib = len(P.LIB_EXT)
+        libtriples = list(itertools.combinations(range(nlib), 3))
+        if self.tier == "quick":
+            libtriples = [t for j, t in enumerate(libtriples) if j % 2 == 0 or t in ((0, 2, 5), (1, 5, 6), (0, 1, 2))]
+        for t in libtriples + [t for t in triples if max(t) >= nlib][:nt]:
             lists.append([pool[i] for i in t])
         self.lists = lists
         ks = []
